@@ -39,6 +39,20 @@ PRED = {
 }
 
 
+PRED_U8 = {
+    "core::num::<impl u8>::is_ascii": [(0, 0x7F)],
+    "core::num::<impl u8>::is_ascii_control": [(0, 0x1F), (0x7F, 0x7F)],
+    "core::num::<impl u8>::is_ascii_graphic": [(0x21, 0x7E)],
+    "core::num::<impl u8>::is_ascii_alphanumeric": [(0x30, 0x39), (0x41, 0x5A), (0x61, 0x7A)],
+    "core::num::<impl u8>::is_ascii_alphabetic": [(0x41, 0x5A), (0x61, 0x7A)],
+    "core::num::<impl u8>::is_ascii_digit": [(0x30, 0x39)],
+    "core::num::<impl u8>::is_ascii_lowercase": [(0x61, 0x7A)],
+    "core::num::<impl u8>::is_ascii_uppercase": [(0x41, 0x5A)],
+    "core::num::<impl u8>::is_ascii_punctuation": [(0x21, 0x2F), (0x3A, 0x40), (0x5B, 0x60), (0x7B, 0x7E)],
+    "core::num::<impl u8>::is_ascii_whitespace": [(0x09, 0x0A), (0x0C, 0x0D), (0x20, 0x20)],
+}
+
+
 def cmp_set(d, c_term):
     """the set of characters c for which the comparison d (a binop between c - possibly widened to
     an integer - and a constant) holds, or None when d is not such a comparison"""
@@ -428,6 +442,15 @@ def check_loop(ctx, rep, INNER_FN, se, pr, lp):
             mode = "enumerate"
             c_term = ("field", item, 1)
             i_term = ("field", item, 0)
+        elif util.is_call(x, "std::iter::Iterator::enumerate") and util.is_call(strip(x[2][0]), "std::iter::Iterator::zip") and util.is_call(strip(strip(x[2][0])[2][0]), "core::str::<impl str>::bytes") and strip(strip(strip(x[2][0])[2][0])[2][0]) == ("param", 1) and util.is_call(strip(strip(x[2][0])[2][1]), "core::slice::<impl [T]>::iter_mut"):
+            # for (i, (b, out)) in s.bytes().zip(array.iter_mut()).enumerate(): byte i of the text
+            # goes to slot i.  While every byte so far was accepted (printable ASCII), byte i is
+            # character i; the first refused byte starts the first refused character, and
+            # `s[i..].chars().next()` is that character
+            mode = "bytes"
+            c_term = ("field", ("field", item, 1), 0)
+            slot_term = ("field", ("field", item, 1), 1)
+            i_term = ("field", item, 0)
         elif util.is_call(x, "std::iter::Iterator::zip"):
             a, b = strip(x[2][0]), strip(x[2][1])
             if util.is_call(a, "core::slice::<impl [T]>::iter_mut") and util.is_call(b, "core::str::<impl str>::chars") and strip(b[2][0]) == ("param", 1):
@@ -465,7 +488,7 @@ def check_loop(ctx, rep, INNER_FN, se, pr, lp):
                         mode = "counter"
                         c_term = item
                         i_term = ct
-    rep.check(mode is not None, "first-offender", INNER_FN, "chars-in-order", "characters are visited by s.chars() in order, position k of the text goes to position k of the array (%s), early return on the first offender" % mode, "characters are not traversed by s.chars().enumerate() / array.iter_mut().zip(s.chars()) in order", body.loc(lp["next_bb"]))
+    rep.check(mode is not None, "first-offender", INNER_FN, "chars-in-order", ("characters are visited by s.chars() in order, position k of the text goes to position k of the array (%s), early return on the first offender" % mode) if mode != "bytes" else "the bytes of the text are visited in order, byte k goes to slot k; the first refused byte is at a character boundary and s[i..] starts with the first refused character", "characters are not traversed by s.chars().enumerate() / array.iter_mut().zip(s.chars()) in order", body.loc(lp["next_bb"]))
     if mode is None:
         return False
     # ------------------------------------------------------------ char set by abstract interpretation
@@ -475,7 +498,7 @@ def check_loop(ctx, rep, INNER_FN, se, pr, lp):
             store_blocks[bi] = (loc, v)
         if mode == "counter" and loc[0] == "index" and (loc[1][0] == "local" or (loc[1][0] == "field" and loc[1][1][0] == "local")):
             store_blocks[bi] = (loc, v)
-        if mode == "zip" and loc[0] == "deref" and strip(loc[1]) == slot_term:
+        if mode in ("zip", "bytes") and loc[0] == "deref" and strip(loc[1]) == slot_term:
             store_blocks[bi] = (loc, v)
     err_blocks = {bi: se.assigns[(bi, si)][1] for bi, si, s in util.blocks_constructing(body, "error::NormalizedStringError", "CharacterNotAllowed")}
     accept, reject, undec = [], [], []
@@ -545,6 +568,9 @@ def check_loop(ctx, rep, INNER_FN, se, pr, lp):
             elif util.is_call(d) and d[1] in PRED and d[2][0] == c_term:
                 ts = inter(cs, PRED[d[1]])
                 fs = minus(cs, PRED[d[1]])
+            elif mode == "bytes" and util.is_call(d) and d[1] in PRED_U8 and strip(d[2][0]) == strip(c_term):
+                ts = inter(cs, PRED_U8[d[1]])
+                fs = minus(cs, PRED_U8[d[1]])
             elif util.is_call(d) and d[1] in fb.bodies and len(d[2]) == 1 and strip(d[2][0]) == c_term:
                 ts = pred_true_set(ctx, d[1], cs)
                 fs = minus(cs, ts) if ts is not None else None
@@ -564,7 +590,8 @@ def check_loop(ctx, rep, INNER_FN, se, pr, lp):
         for s_ in body.succs(bb):
             explore(s_, cs, seen + (bb,))
 
-    explore(lp["body_bb"], ALL, ())
+    DOMAIN = [(0, 0xFF)] if mode == "bytes" else ALL
+    explore(lp["body_bb"], DOMAIN, ())
     accept = norm_set(accept)
     reject = norm_set(reject)
     if undec:
@@ -573,15 +600,35 @@ def check_loop(ctx, rep, INNER_FN, se, pr, lp):
         extra = minus(accept, ACCEPT)
         missing = minus(ACCEPT, accept)
         rep.check(accept == ACCEPT, "char-set", INNER_FN, "accepted-set", "accepted characters = %s" % show_set(accept), "accepted character set is %s; wrongly accepted %s, wrongly refused %s" % (show_set(accept), show_set(extra), show_set(missing)), body.loc())
-        rep.check(norm_set(accept + reject) == ALL, "char-set", INNER_FN, "total", "every character is either stored or reported", "some characters reach neither the store nor the error", body.loc())
+        rep.check(norm_set(accept + reject) == DOMAIN, "char-set", INNER_FN, "total", "every character is either stored or reported" if mode != "bytes" else "every byte value is either stored or leads to the error (bytes >= 0x80 start a refused character)", "some characters reach neither the store nor the error", body.loc())
     good = bool(err_blocks) and all(strip(v[4][0]) == c_term for v in err_blocks.values())
+    if mode == "bytes":
+        # the character reported is the one that starts at the refused byte: s[i..].chars().next()
+        def char_at_i(t):
+            t = strip(t)
+            if util.is_call(t) and t[1].split("::")[-1] in ("unwrap_or", "unwrap", "expect", "unwrap_or_default") and t[1].startswith("std::option::Option"):
+                t = strip(t[2][0])
+            if not (util.is_call(t) and t[1].endswith("Chars<'a> as std::iter::Iterator>::next")):
+                return False
+            it = t[2][0]
+            if strip(it)[0] == "mutref":
+                it = se.call_old.get((t[3][:2], 0))
+            it = strip(it) if it is not None else ("?",)
+            if not util.is_call(it, "core::str::<impl str>::chars"):
+                return False
+            sl = strip(it[2][0])
+            if not (util.is_call(sl) and sl[1].endswith("for str>::index") and strip(sl[2][0]) == ("param", 1)):
+                return False
+            rg = strip(sl[2][1])
+            return rg[0] == "agg" and rg[2] == "std::ops::RangeFrom" and strip(rg[4][0]) == strip(i_term)
+        good = bool(err_blocks) and all(char_at_i(v[4][0]) for v in err_blocks.values())
     rep.check(good, "first-offender", INNER_FN, "reported-char", "Err(CharacterNotAllowed(c)) carries the offending character", "the reported character is not the offending loop character", body.loc())
     # ------------------------------------------------------------ normal form
     good = False
     desc = "?"
     if len(store_blocks) == 1:
         loc, v = next(iter(store_blocks.values()))
-        idx_ok = True if mode == "zip" else strip(loc[2]) == i_term
+        idx_ok = True if mode in ("zip", "bytes") else strip(loc[2]) == i_term
         if mode == "counter":
             ix = util.numnorm(loc[2])
             while ix[0] == "cast" or (util.is_call(ix) and "From<u8> for usize" in ix[1] and len(ix[2]) == 1):
@@ -593,7 +640,8 @@ def check_loop(ctx, rep, INNER_FN, se, pr, lp):
         f2 = util.is_call(v, "core::num::<impl u8>::to_ascii_uppercase") and strip(v[2][0]) == ("cast", "IntToInt", c_term, "u8") and accept == ACCEPT
         # ... or of the byte u8::try_from(c) produced (the same number as c where it exists)
         f3 = util.is_call(v, "core::num::<impl u8>::to_ascii_uppercase") and strip(v[2][0]) in [strip(a_) for a_ in aliases[1:]] and accept == ACCEPT
-        good = idx_ok and (f1 or f2 or f3)
+        f4 = mode == "bytes" and util.is_call(v, "core::num::<impl u8>::to_ascii_uppercase") and strip(v[2][0]) == strip(c_term) and accept == ACCEPT
+        good = idx_ok and (f1 or f2 or f3 or f4)
         desc = show(v, maxdepth=3)
     rep.check(good, "normal-form", INNER_FN, "stored-byte", "array[position] = ASCII upper case of c", "stored byte is not the ASCII upper case of the character at its position: " + desc, body.loc())
     oks = [(bi, si) for bi, si, s in util.blocks_constructing(body, NS)]
